@@ -25,8 +25,10 @@ static void check_acc(const std::string& fn, const std::string& cell, double v, 
    const double e = relerr(v, ref, floor_);
    J w = c; w.str("fn", fn).d("value", v).ld("ref", ref).d("err", e).d("tol", tol);
    out->cell(fn + "|" + cell, e, &w);
-   if (!(e <= tol)) out->fail(key, fn + ": value " + vh::num(v) + ", reference " + vh::num(ref) + ", error " + vh::num(e) + " > " + vh::num(tol), w);
+   if (!(e <= tol)) out->fail(key, fn + ": value " + vh::num(v) + ", reference " + vh::num(ref) + ", error " + vh::num(e) + " > " + vh::num(tol), w, e);
 }
+// permutation symmetry: the current code sorts its arguments (bit-identical results); an implementation that is symmetric up to rounding also satisfies the property
+static const double SYM_TOL = 1e-12;
 static void check_rel(const std::string& fn, const std::string& clause, double a, double b, double floor_, double tol, const J& c) {
    double e = (vh::same_bits(a, b)) ? 0 : std::fabs(a - b) / std::max({std::fabs(a), std::fabs(b), floor_, 1e-300});
    if (std::isnan(a) != std::isnan(b)) e = std::numeric_limits<double>::quiet_NaN();
@@ -53,8 +55,8 @@ static void case_FaFb(vh::Rng& r) {
    const bool smallargs = x != y && std::fabs(x - y) < 1e-5 * (1 + std::max(x, y)) && std::fabs(x - y) > 1e-3 * std::max(x, y);
    check_acc("Fa", cell, va, mpref_evaln(MPREF_Fa, a), 1e-3L * Fa11, 1e-4, c, smallargs ? "C02:Fa:small-arguments-taken-as-equal" : "C02:Fa:accuracy");
    check_acc("Fb", cell, vb, mpref_evaln(MPREF_Fb, a), 1e-3L * Fb11, 1e-4, c, smallargs ? "C02:Fb:small-arguments-taken-as-equal" : "C02:Fb:accuracy");
-   check_rel("Fa", "symmetry", va, gm2calc::Fa(y, x), 0, 0, c);
-   check_rel("Fb", "symmetry", vb, gm2calc::Fb(y, x), 0, 0, c);
+   check_rel("Fa", "symmetry", va, gm2calc::Fa(y, x), 0, SYM_TOL, c);
+   check_rel("Fb", "symmetry", vb, gm2calc::Fb(y, x), 0, SYM_TOL, c);
 }
 
 // ----------------------------------------------------------------------- triples
@@ -101,7 +103,7 @@ static void case_triple(vh::Rng& r) {
       // permutations: Phi sorts its arguments -> bit-exact; lambda_2 does not sort
       static const int perm[5][3] = {{0, 2, 1}, {1, 0, 2}, {1, 2, 0}, {2, 0, 1}, {2, 1, 0}};
       for (auto& q : perm) {
-         check_rel("Phi", "symmetry", v, gm2calc::Phi(p[q[0]], p[q[1]], p[q[2]]), 0, 0, c);
+         check_rel("Phi", "symmetry", v, gm2calc::Phi(p[q[0]], p[q[1]], p[q[2]]), 1e-3 * zmax, 1e-9, c);   // on the floor of the accuracy clause, 1000 x tighter than it (Phi changes sign: no relative measure)
          check_rel("lambda_2", "symmetry", l2d, gm2calc::lambda_2(p[q[0]], p[q[1]], p[q[2]]), zmax * zmax, 1e-12, c);   // not sorted internally: permutations round differently (few ulp of z^2)
       }
       const double k2 = std::ldexp(1.0, r.range(41) - 20), kr = r.LU(1e-3, 1e3);
@@ -126,7 +128,7 @@ static void case_triple(vh::Rng& r) {
       const std::string cell = "acc|" + mode + "|" + closeness(as[0], as[1]) + "|" + closeness(as[1], as[2]) + "|near1:" + closeness(as[2], 1.0);
       check_acc("Iabc", cell, v, mpref_evaln(MPREF_Iabc, a), 1e-3L / cmax2, 1e-6, ci, "C02:Iabc:accuracy");
       static const int perm[5][3] = {{0, 2, 1}, {1, 0, 2}, {1, 2, 0}, {2, 0, 1}, {2, 1, 0}};
-      for (auto& q : perm) check_rel("Iabc", "symmetry", v, gm2calc::Iabc(a[q[0]], a[q[1]], a[q[2]]), 0, 0, ci);
+      for (auto& q : perm) check_rel("Iabc", "symmetry", v, gm2calc::Iabc(a[q[0]], a[q[1]], a[q[2]]), 0, SYM_TOL, ci);
       const double k2 = std::ldexp(1.0, r.range(21) - 10), kr = r.LU(1e-2, 1e2);
       check_rel("Iabc", "homogeneity-pow2", v, gm2calc::Iabc(k2 * a[0], k2 * a[1], k2 * a[2]) * k2 * k2, 0, 0, ci);
       check_rel("Iabc", "homogeneity-random", v, gm2calc::Iabc(kr * a[0], kr * a[1], kr * a[2]) * kr * kr, 1e-3 / cmax2, 1e-7, ci);   // a ratio on a 1e-4 window edge may change branch (branches agree to ~2e-9)
@@ -156,15 +158,15 @@ static void case_dq(vh::Rng& r) {
    const bool eqq = x == y && std::fabs(x - 0.25) >= 1e-8 && std::fabs(x - 0.25) < 1e-6;   // equal-argument branch divides by (1 - 4x)
    check_acc("FPZ", cell, vp, mpref_evaln(MPREF_FPZ, a), 1e-3L * tP, 1e-6, c, eqq ? "C02:FPZ:equal-arguments-near-1/4" : "C02:FPZ:accuracy");
    check_acc("FSZ", cell, vs, mpref_evaln(MPREF_FSZ, a), 1e-3L * tS, 1e-6, c, eqq ? "C02:FSZ:equal-arguments-near-1/4" : "C02:FSZ:accuracy");
-   check_rel("FPZ", "symmetry", vp, gm2calc::FPZ(y, x), 0, 0, c);
-   check_rel("FSZ", "symmetry", vs, gm2calc::FSZ(y, x), 0, 0, c);
+   check_rel("FPZ", "symmetry", vp, gm2calc::FPZ(y, x), 0, SYM_TOL, c);
+   check_rel("FSZ", "symmetry", vs, gm2calc::FSZ(y, x), 0, SYM_TOL, c);
    // FCWl: f_CSl loses accuracy for arguments > 1e3 (C01 known finding): the lepton function is used with x, y <= 1
    {
       // f_CSl cancels like z^2 for large z (C01 finding); the difference quotient amplifies it by 1/|1 - y/x|
       const bool large = std::max(x, y) > 100;
       const double vl = gm2calc::FCWl(x, y);
       check_acc("FCWl", cell, vl, mpref_evaln(MPREF_FCWl, a), 1e-3L * tL, 1e-6, c, large ? "C02:FCWl:large-argument-cancellation" : "C02:FCWl:accuracy");
-      check_rel("FCWl", "symmetry", vl, gm2calc::FCWl(y, x), 0, 0, c);
+      check_rel("FCWl", "symmetry", vl, gm2calc::FCWl(y, x), 0, SYM_TOL, c);
    }
 }
 
@@ -235,6 +237,33 @@ static void zero_limits() {
    }
 }
 
+// call histories: f(p), f(p with one argument changed), f(p) again, and the neighbour after an unrelated call - the value of a call must not depend on the
+// calls before it (what a result remembered under an incomplete key, or state left behind by a branch, would break)
+static void case_history(vh::Rng& r) {
+   struct MF { const char* name; int nargs; double (*f)(const double*); };
+   static const MF F[] = {
+      {"Fa", 2, [](const double* p) { return gm2calc::Fa(p[0], p[1]); }}, {"Fb", 2, [](const double* p) { return gm2calc::Fb(p[0], p[1]); }},
+      {"Iabc", 3, [](const double* p) { return gm2calc::Iabc(p[0], p[1], p[2]); }}, {"Phi", 3, [](const double* p) { return gm2calc::Phi(p[0], p[1], p[2]); }},
+      {"lambda_2", 3, [](const double* p) { return gm2calc::lambda_2(p[0], p[1], p[2]); }},
+      {"FPZ", 2, [](const double* p) { return gm2calc::FPZ(p[0], p[1]); }}, {"FSZ", 2, [](const double* p) { return gm2calc::FSZ(p[0], p[1]); }}, {"FCWl", 2, [](const double* p) { return gm2calc::FCWl(p[0], p[1]); }},
+      {"FCWu", 4, [](const double* p) { return gm2calc::FCWu(p[0], p[1], p[2], p[3], 2.0 / 3, -1.0 / 3); }}, {"FCWd", 4, [](const double* p) { return gm2calc::FCWd(p[0], p[1], p[2], p[3], 2.0 / 3, -1.0 / 3); }},
+      {"f_CSd", 2, [](const double* p) { return gm2calc::f_CSd(p[0], p[1], 2.0 / 3, -1.0 / 3); }}, {"f_CSu", 2, [](const double* p) { return gm2calc::f_CSu(p[0], p[1], 2.0 / 3, -1.0 / 3); }}};
+   const MF& f = F[r.range(sizeof(F) / sizeof(*F))];
+   double p[4], q[4], u[4];
+   for (int k = 0; k < 4; ++k) { p[k] = r.LU(1e-3, 1e3); u[k] = r.LU(1e-3, 1e3); q[k] = p[k]; }
+   if (r.chance(0.3)) p[1] = q[1] = p[0];                                   // on an equal-argument branch
+   if (f.nargs == 4) { p[2] = q[2] = p[0] * r.LU(1e-2, 1); p[3] = q[3] = p[1] * (p[2] / p[0]); u[2] = u[0] * 0.3; u[3] = u[1] * 0.3; }   // (xu, yu, xd, yd) with a common mass ratio
+   const int j = r.range(f.nargs);
+   q[j] = r.chance(0.5) ? p[j] * (1 + r.sign() * r.LU(1e-12, 1e-2)) : p[j] * r.LU(0.1, 10);
+   const double a1 = f.f(p), b1 = f.f(q), a2 = f.f(p);
+   f.f(u); const double b2 = f.f(q);
+   f.f(u); const double a3 = f.f(p);
+   const bool ok = vh::same_bits(a1, a2) && vh::same_bits(a1, a3) && vh::same_bits(b1, b2);
+   J c; c.str("fn", f.name).arr("p", p, p + f.nargs).arr("neighbour", q, q + f.nargs).arr("unrelated", u, u + f.nargs).i("changed_argument", j).d("f(p)", a1).d("f(p) after neighbour", a2).d("f(p) after unrelated", a3).d("f(q) after p", b1).d("f(q) after unrelated", b2);
+   out->cell(std::string(f.name) + "|call-history", ok ? 0 : 1, &c);
+   if (!ok) out->fail(std::string("C02:") + f.name + ":call-history", std::string(f.name) + ": the value of a call depends on the calls before it", c);
+}
+
 int main(int argc, char** argv) {
    vh::Args a(argc, argv);
    vh::Out o(a); out = &o;
@@ -243,6 +272,7 @@ int main(int argc, char** argv) {
       o.cur = i;
       vh::Rng r(a.seed, a.worker, i);
       ++o.evaluations; ++o.conclusive;
+      if (i % 16 == 15) { case_history(r); continue; }
       switch (i % 8) {
       case 0: case 1: case_FaFb(r); break;
       case 2: case 3: case 4: case_triple(r); break;
